@@ -553,6 +553,34 @@ def d5(cx: Cx, ob: Ob) -> None:
     if ann is None or ast.unparse(ann) != "Prefix":
         ob.violate(REF, f"src/curies/{base.module.relpath}:{base.node.lineno}", f"Reference.prefix is typed `{ast.unparse(ann) if ann is not None else '?'}`, not Prefix: a converter supplied as validation context is ignored", detail="prefix-type")
     pc = cx.model.cls(f"{API}.Prefix", ob.id)
+    # pydantic semantics (written from its documentation): (1) a model class that defines its own __init__ is
+    # validated as cls(**data), and BaseModel.__init__ validates WITHOUT the caller's context - the converter handed to
+    # model_validate / from_curie never reaches Prefix._validate; (2) in Prefix's core schema every branch
+    # (python and json) must wrap the info-aware validator - a `no_info_*` validator function never sees the context
+    for ci in cx.model.classes.values():
+        if ci.qualname == REF or cx.model.is_subclass(ci.name, "Reference"):
+            init_ = ci.methods.get("__init__")
+            if init_ is not None:
+                ob.violate(
+                    init_.qualname,
+                    init_.where,
+                    f"{ci.name} defines its own __init__: pydantic then builds instances of it (and of its subclasses) through cls(**data), and BaseModel.__init__ re-validates without the validation context - `from_curie(.., converter=c)`, `from_reference(.., converter=c)` and `model_validate(.., context=c)` no longer standardise or check the prefix for these classes",
+                    witness="NamedReference.from_curie('go:1', name='x', converter=c).prefix stays 'go'; an unknown prefix is accepted",
+                    detail=f"model-init-override:{ci.name}",
+                )
+            ob.site(f"src/curies/{ci.module.relpath}:{ci.node.lineno} {ci.qualname}", "no __init__ override in the Reference hierarchy")
+    sch = pc.methods.get("__get_pydantic_core_schema__")
+    if sch is not None:
+        for n in ast.walk(sch.node):
+            if isinstance(n, ast.Call) and isinstance(n.func, ast.Attribute) and n.func.attr.startswith("no_info_") and n.func.attr.endswith("_validator_function"):
+                ob.violate(
+                    sch.qualname,
+                    f"src/curies/{sch.module.relpath}:{n.lineno}",
+                    f"Prefix's core schema uses `{n.func.attr}` on one of its branches: that validator is not handed the ValidationInfo, so on that branch (JSON input: model_validate_json) a converter supplied as context is never consulted - synonyms are kept and unknown prefixes accepted",
+                    witness="Reference.model_validate_json('{\"prefix\": \"go\", \"identifier\": \"1\"}', context=c).prefix == 'go'",
+                    detail="schema-branch-without-info",
+                )
+        ob.site(f"{sch.where} {sch.qualname}", "every validator function of Prefix's schema is info-aware")
     v = pc.methods.get("_validate")
     if v is None:
         ob.violate(pc.qualname, f"src/curies/{pc.module.relpath}:{pc.node.lineno}", "Prefix has no _validate hook", detail="no-validate")
